@@ -199,6 +199,19 @@ static void model_case(Rng& r) {
     for (u32 i = 0; i < steps; ++i) {
         int s = (int)r.below(4); Rec rc = gen_rec(r, s == 0);
         bool later_populated = false; for (int t = s + 1; t < 4; ++t) if (!m.sec[t].empty()) later_populated = true;
+        // an insertion the library must refuse (address record whose data is not an address): whatever it throws, the
+        // message must be exactly what it was -- the object goes on being used
+        if (s != 0 && r.chance(1, 8)) {
+            u32 how = r.below(2); std::string nm = "bad.example.com"; std::string data = how == 0 ? "not-an-address" : "1.2.3.4.5";      // (labels over 63 octets are not refused by libtins; names of illegal form are outside the statement)
+            DNS::resource bad(nm, data, how == 1 ? DNS::AAAA : DNS::A, DNS::INTERNET, 7);
+            hist += std::string("refused-") + (s == 1 ? "add_answer(" : s == 2 ? "add_authority(" : "add_additional(") + nm.substr(0, 20) + "," + data + ") "; describe_case(hist);
+            bool threw = false;
+            try { if (s == 1) d->add_answer(bad); else if (s == 2) d->add_authority(bad); else d->add_additional(bad); } catch (const exception_base&) { threw = true; } catch (const std::exception& e) { violation("add-throws/" + demangle(typeid(e).name()) + "/refused-insertion", std::string(e.what()) + " :: " + hist); return; }
+            if (!threw) { violation("invalid-insertion-accepted/section" + std::to_string(s), "an address record with data '" + data + "' was accepted :: " + hist); return; }
+            cnt("refused_insertions"); if (later_populated) cnt("refused_insertions_before_populated_section");
+            if (!check_dns("after-refused-add", *d, m, hist)) return;
+            roundtrip(*d, m, hist);
+        }
         hist += std::string(s == 0 ? "add_query(" : s == 1 ? "add_answer(" : s == 2 ? "add_authority(" : "add_additional(") + rc.name.substr(0, 40) + ",t" + std::to_string(rc.type) + ") ";
         describe_case(hist);
         try {
